@@ -47,6 +47,8 @@ TCkpt == /\ IsEv("Ckpt")
                             [] Ev.k = "start" -> sub[i] = "start"
                             [] Ev.k = "succeed" -> sub[i] = "succeed"
                             [] Ev.k = "wstart" -> sub[i] = "wstart"
+                            [] Ev.k = "retry" -> sub[i] = "retry"
+                            [] Ev.k = "fail" -> sub[i] = "failrec"
                             [] Ev.k = "ctxEnd" -> sub[i] = "atom" /\ sub'[i] = "ctxWait"
                             [] OTHER -> FALSE
          /\ Consume
@@ -55,7 +57,7 @@ TBodyEnd == /\ IsEv("BodyEnd")
             /\ LET i == Ev.i IN
                IF Ev.out \in {"susp", "tsusp", "bte"}
                  THEN /\ wph[i] = "run" /\ i \notin chk /\ BodyStep(i) /\ H3 /\ H5 /\ fout'[i] = Ev.out
-                      /\ Ev.out # "bte" => (sub[i] = "park" /\ Atom(i) = Ev.out)
+                      /\ Ev.out # "bte" => (sub[i] = "park" /\ ParkOut(i) = Ev.out)
                  ELSE IF Ev.out \in {"ok", "fail"}
                         THEN wph[i] = "run" /\ sub[i] = "ctxWait" /\ i \notin chk /\ BodyStep(i) /\ H3 /\ H5 /\ fout'[i] = Ev.out
                         ELSE fout[i] = Ev.out /\ wph[i] # "run" /\ NoOp
